@@ -245,6 +245,13 @@ HandshakeManager::receive_succeeded(Handshake* ptr) {
 
     download->peer_list()->disconnected(peer_info, 0);
 
+    // No connection was created, so nobody took over the handshake's extension object: give back
+    // what it counted (DownloadInfo::size_pex when ut_pex was enabled in the extension handshake).
+    if (!handshake->extensions()->is_default()) {
+      handshake->extensions()->cleanup();
+      delete handshake->extensions();
+    }
+
     lt_log_print(LOG_CONNECTION_HANDSHAKE, "handshake_manager: duplicate peer: type:%s id:%s", peer_type, hash_str.c_str());
     return;
   }
